@@ -51,10 +51,14 @@ type State struct {
 	larr   map[*ssa.Alloc]*LocalArr
 	defers []*ssa.Defer
 	held   map[string]bool
+	frozen map[string]string // backing-array identity -> Bool term: handed over on a channel on this path
 }
 
 func (s *State) clone() *State {
-	n := &State{hv: s.hv, reach: s.reach, top: s.top, heap: map[string]string{}, ghost: map[string]Val{}, larr: map[*ssa.Alloc]*LocalArr{}, held: map[string]bool{}}
+	n := &State{hv: s.hv, reach: s.reach, top: s.top, heap: map[string]string{}, ghost: map[string]Val{}, larr: map[*ssa.Alloc]*LocalArr{}, held: map[string]bool{}, frozen: map[string]string{}}
+	for k, v := range s.frozen {
+		n.frozen[k] = v
+	}
 	for k, v := range s.heap {
 		n.heap[k] = v
 	}
@@ -146,6 +150,8 @@ type Exec struct {
 	measures map[int]string
 	replayInputs []*inNode
 	callOrd  map[ssa.Instruction]callSite
+	loopFrames map[int]map[string]loopFrame
+	aliasOf  map[string][]aliasEdge // ownership tracking: a phi's array is one of its incoming arrays
 	curBlock *ssa.BasicBlock
 	prov     map[string]string // reference term -> "fresh" | "owned"
 	havockedAll bool
@@ -205,6 +211,16 @@ func (e *Exec) benign(idx string) bool { return e.prov[idx] != "" }
 
 func (e *Exec) bumpHV(st *State) {
 	st.hv = e.S.Fresh("hv", "Int")
+}
+
+type loopFrame struct {
+	header string   // the array at the loop head
+	locs   []string // the only indices the loop may change
+}
+
+type aliasEdge struct {
+	cond  string
+	ident string
 }
 
 type callSite struct {
@@ -765,6 +781,11 @@ func (e *Exec) computeOrdinals() {
 				ccnt[n]++
 				e.callOrd[in] = callSite{n, ccnt[n]}
 			}
+			if _, ok := in.(*ssa.Send); ok {
+				// channel sends are addressable like calls: `call send#k:`
+				ccnt["send"]++
+				e.callOrd[in] = callSite{"send", ccnt["send"]}
+			}
 			k := instrKind(in)
 			if k != "" {
 				cnt[k]++
@@ -939,6 +960,28 @@ func (e *Exec) mergeStates(sts []*State, conds []string) *State {
 		}
 		n.hv = e.S.Define("hv", "Int", t)
 	}
+	// ownership flags (absent = false)
+	{
+		keys := map[string]bool{}
+		for _, s := range sts {
+			for k := range s.frozen {
+				keys[k] = true
+			}
+		}
+		fz := func(s *State, k string) string {
+			if t, ok := s.frozen[k]; ok {
+				return t
+			}
+			return "false"
+		}
+		for _, k := range sortedKeys(keys) {
+			t := fz(sts[len(sts)-1], k)
+			for i := len(sts) - 2; i >= 0; i-- {
+				t = sIte(conds[i], fz(sts[i], k), t)
+			}
+			n.frozen[k] = t
+		}
+	}
 	// ghost
 	for g := range n.ghost {
 		v := sts[len(sts)-1].ghost[g]
@@ -1040,7 +1083,20 @@ func (e *Exec) runFrame(fr *Frame, st0 *State) {
 						v = valIte(conds[i], pv, v)
 					}
 				}
-				fr.vals[phi] = e.nameVal(fmt.Sprintf("%s_%s", phi.Name(), sanitize(phi.Comment)), v, phi.Type())
+				pv := e.nameVal(fmt.Sprintf("%s_%s", phi.Name(), sanitize(phi.Comment)), v, phi.Type())
+				if pv.K == KBytes && fr.top && e.ownership() {
+					// the phi aliases whichever incoming array was selected
+					pv.Ident = "phi:" + phi.Name()
+					var al []aliasEdge
+					for i := range preds {
+						iv := e.val(fr, phi.Edges[predIndex(b, preds[i])], sts[i])
+						if iv.Ident != "" {
+							al = append(al, aliasEdge{conds[i], iv.Ident})
+						}
+					}
+					e.aliasOf[pv.Ident] = al
+				}
+				fr.vals[phi] = pv
 			}
 			if li != nil {
 				st = e.cutLoop(fr, li, st)
@@ -1060,6 +1116,9 @@ func (e *Exec) runFrame(fr *Frame, st0 *State) {
 			if !e.execInstr(fr, st, in) {
 				alive = false
 				break
+			}
+			if fr.top {
+				e.trackIdent(fr, st, in)
 			}
 		}
 		if alive {
